@@ -60,6 +60,25 @@ theorem C18_etag_changes_iff (i l s n i' l' s' n' : Nat) :
   · exact fileEtag_injective i l s n i' l' s' n'
   · rintro ⟨rfl, rfl, rfl, rfl⟩; rfl
 
+/-- The same for every modification time, before the epoch included (`fileEtagS`; `b` says the
+time precedes the epoch, `s`, `n` are then its distance from it): a valid strong entity-tag made
+of hex digits, colons and `-`. -/
+theorem C18_etag_wellformed_any_time (i l : Nat) (b : Bool) (s n : Nat) :
+    ∃ body : Bytes, fileEtagS i l b s n = [34] ++ body ++ [34] ∧
+      (∀ c ∈ body, isLowerHex c = true ∨ c = 58 ∨ c = 45) ∧ 34 ∉ body ∧
+      (fileEtagS i l b s n).head? = some 34 :=
+  fileEtagS_wellformed i l b s n
+
+/-- ... and it differs as soon as inode, length or the modification time (its side of the epoch,
+seconds or nanoseconds) differs; for times at or after the epoch it is `fileEtag`. -/
+theorem C18_etag_changes_iff_any_time (i l : Nat) (b : Bool) (s n i' l' : Nat) (b' : Bool)
+    (s' n' : Nat) :
+    (fileEtagS i l b s n = fileEtagS i' l' b' s' n' ↔
+      (i = i' ∧ l = l' ∧ b = b' ∧ s = s' ∧ n = n')) ∧
+    fileEtagS i l false s n = fileEtag i l s n := by
+  refine ⟨⟨fileEtagS_injective i l b s n i' l' b' s' n', ?_⟩, fileEtagS_false i l s n⟩
+  rintro ⟨rfl, rfl, rfl, rfl, rfl⟩; rfl
+
 /-- Constructing it on a non-regular file is refused: accepted exactly for regular files. -/
 theorem C18_refuses_non_regular (k : FileKind) : newWithMetadata k = true ↔ k = .regular := by
   cases k <;> simp [newWithMetadata]
